@@ -37,7 +37,7 @@ use super::Prop;
 use crate::common::{block_on_system, kv, unhex, CaseResult, Ctx, Rng, Tier};
 
 const RULE: &str = "cases = (extractor ∈ {Bytes, String, Json<String>, Form<{a}>, web::Payload::to_bytes_limited, \
-body::to_bytes_limited on a scripted MessageBody, MultipartForm<A|B|C>, multipart Field::bytes}) × limit × declared length (absent / true / \
+body::to_bytes_limited on a scripted MessageBody, MultipartForm<A|B|C|D (renamed + limited fields)>, multipart Field::bytes}) × limit × declared length (absent / true / \
 lying small / lying large / unparsable) × content coding (identity, gzip, deflate, br, zstd) × plain body × a script \
 cutting the wire image into chunks (empty chunks, Pending, stream error). Streams: all compositions of bodies ≤ 5 \
 bytes for limits 0..4; lengths limit-1/limit/limit+1/4·limit for limits up to 64 KiB with whole / 1-byte / random \
@@ -760,8 +760,25 @@ struct FormC {
     b: Option<MpBytes>,
 }
 
+/// field-level limits on RENAMED fields: the wire names (`payload[]`, `single`) differ from the
+/// Rust identifiers (`payload`, `one`); `ctl` is the un-renamed control.  A part whose wire name is
+/// the Rust identifier (`payload`) is an unknown field.
+#[derive(MultipartForm)]
+struct FormD {
+    #[multipart(rename = "payload[]", limit = "16B")]
+    payload: Vec<MpBytes>,
+    #[multipart(limit = "16B")]
+    ctl: Vec<MpBytes>,
+    #[multipart(rename = "single", limit = "8B")]
+    one: Option<MpBytes>,
+}
+
+/// per-field limits, keyed by the WIRE name (what `MultipartCollect::limit(field_name)` receives)
 fn mp_limit_of(form: &str, name: &str) -> Option<usize> {
     match (form, name) {
+        ("D", "payload[]") => Some(16),
+        ("D", "ctl") => Some(16),
+        ("D", "single") => Some(8),
         ("A", "a") => Some(16),
         ("A", "t") => Some(24),
         ("A", "s") => Some(8),
@@ -831,6 +848,18 @@ async fn run_mp_form(form: &str, total: Option<usize>, mem: Option<usize>, evs: 
     let mut pl = payload_of(evs, cnt);
     let mut kept = Kept::new();
     match form {
+        "D" => match MultipartForm::<FormD>::from_request(&req, &mut pl).await {
+            Ok(f) => {
+                kept.insert("payload[]", f.payload.iter().map(|x| x.data.len()).collect());
+                kept.insert("ctl", f.ctl.iter().map(|x| x.data.len()).collect());
+                kept.insert("single", f.one.iter().map(|x| x.data.len()).collect());
+                ("ok".into(), "-".into(), Some(kept))
+            }
+            Err(e) => {
+                let (r, s) = mp_classify(&e);
+                (r, s, None)
+            }
+        },
         "A" => match MultipartForm::<FormA>::from_request(&req, &mut pl).await {
             Ok(f) => {
                 kept.insert("a", f.a.iter().map(|x| x.data.len()).collect());
@@ -878,19 +907,28 @@ fn mp_reference(form: &str, total: usize, mem: usize, fields: &[(String, usize)]
     let mut by_name: BTreeMap<String, usize> = BTreeMap::new();
     let mut seen: Vec<String> = Vec::new();
     let mut kept = Kept::new();
-    for k in ["a", "b", "t", "s"] {
-        if !(form != "A" && (k == "t" || k == "s")) {
+    if form == "D" {
+        for k in ["payload[]", "ctl", "single"] {
             kept.insert(k, vec![]);
+        }
+    } else {
+        for k in ["a", "b", "t", "s"] {
+            if !(form != "A" && (k == "t" || k == "s")) {
+                kept.insert(k, vec![]);
+            }
         }
     }
     for (name, len) in fields {
-        let known = matches!((form, name.as_str()), ("A", "a" | "b" | "t" | "s") | ("B" | "C", "a" | "b"));
-        let is_vec = name == "a" || name == "t";
+        let known = matches!(
+            (form, name.as_str()),
+            ("A", "a" | "b" | "t" | "s") | ("B" | "C", "a" | "b") | ("D", "payload[]" | "ctl" | "single")
+        );
+        let is_vec = matches!(name.as_str(), "a" | "t" | "payload[]" | "ctl");
         let dup = !is_vec && seen.contains(name);
         if known && dup && form == "B" {
             return ("duplicate".into(), kept);
         }
-        let read = known && !(dup && form == "A");
+        let read = known && !(dup && (form == "A" || form == "D"));
         let in_mem = read && name != "t";
         sum_total += len;
         if in_mem {
@@ -904,6 +942,9 @@ fn mp_reference(form: &str, total: usize, mem: usize, fields: &[(String, usize)]
         }
         if read {
             let key: &'static str = match name.as_str() {
+                "payload[]" => "payload[]",
+                "ctl" => "ctl",
+                "single" => "single",
                 "a" => "a",
                 "b" => "b",
                 "t" => "t",
@@ -1434,6 +1475,48 @@ fn gen(ctx: &Ctx) -> Vec<String> {
         // an unknown field is discarded chunk by chunk but still charged to the total budget
         let overhead = 0;
         cases.push(format!("ex=mp form=B total=dflt mem=dflt fields=u:{} cuts=1000000", n - overhead));
+    }
+
+    // (F1) field-level limits on renamed fields (wire name ≠ Rust identifier): the renamed field at
+    // limit-1 / limit / limit+1 / 4·limit, well within the form-wide budgets, alone, split over
+    // several parts of the same wire name, and next to the control / unknown parts
+    for (wname, lim) in [("payload[]", 16usize), ("single", 8), ("ctl", 16)] {
+        for n in [lim - 1, lim, lim + 1, 4 * lim] {
+            let mut variants: Vec<Vec<(String, usize)>> = vec![
+                vec![(wname.to_owned(), n)],
+                vec![("ctl".to_owned(), 3), (wname.to_owned(), n), ("u".to_owned(), 5)],
+                vec![("payload".to_owned(), 40), (wname.to_owned(), n)],
+            ];
+            if wname != "single" {
+                variants.push(vec![(wname.to_owned(), n / 2), ("u".to_owned(), 2), (wname.to_owned(), n - n / 2)]);
+            }
+            for fields in variants {
+                let w = mp_body(&fields).len();
+                let fs: Vec<String> = fields.iter().map(|(n, l)| format!("{}:{}", n, l)).collect();
+                cases.push(format!("ex=mp form=D total=1000 mem=1000 fields={} cuts={}", fs.join(";"), cuts_str(&[Tok::Chunk(w)])));
+                cases.push(format!("ex=mp form=D total=dflt mem=dflt fields={} cuts={}", fs.join(";"), cuts_str(&random_cuts(&mut rng, w, 6, true))));
+            }
+        }
+    }
+    let dnames = ["payload[]", "payload[]", "ctl", "single", "payload", "u", "one"];
+    for i in 0..ctx.budget(400) {
+        let k = rng.range(1, 6);
+        let fields: Vec<(String, usize)> = (0..k)
+            .map(|_| {
+                let len = *rng.pick(&[0usize, 1, 7, 8, 9, 15, 16, 17, 30, 64]);
+                ((*rng.pick(&dnames)).to_owned(), if rng.chance(2, 3) { len } else { rng.below(12) })
+            })
+            .collect();
+        let sum: usize = fields.iter().map(|f| f.1).sum();
+        let (total, mem) = match rng.below(6) {
+            0 => (sum, sum + 100),
+            1 => (sum + 100, sum.saturating_sub(1)),
+            _ => (sum + 500, sum + 500),
+        };
+        let w = mp_body(&fields).len();
+        let toks = if i % 3 == 0 { vec![Tok::Chunk(w)] } else { random_cuts(&mut rng, w, 7, true) };
+        let fs: Vec<String> = fields.iter().map(|(n, l)| format!("{}:{}", n, l)).collect();
+        cases.push(format!("ex=mp form=D total={} mem={} fields={} cuts={}", total, mem, fs.join(";"), cuts_str(&toks)));
     }
 
     // (F) multipart forms
